@@ -101,7 +101,23 @@ def unlink_at_zero(ctx):
         first, second = (inner[0].body, inner[0].orelse) if neg else (inner[0].orelse, inner[0].body) if ok else ([], [])
         def touch(stmts):
             return [unparse(s_) for s_ in stmts if "registry" in unparse(s_)]
-        ctx.check(ok and touch(first) == ["registry[rtype][name] = 1"] and touch(second) == ["registry[rtype][name] += 1"], rg,
+        # the same counting in one statement: X[name] = X.get(name, 0) + 1, X being registry[rtype] or a local alias of it
+        def _is_reg(e):
+            if unparse(e) == "registry[rtype]":
+                return True
+            if isinstance(e, ast.Name):
+                dd = [a for a in ast.walk(_main(ctx)) if isinstance(a, ast.Assign) and e.id in stores_to(a)]
+                return len(dd) == 1 and unparse(dd[0].value) == "registry[rtype]"
+            return False
+        oneline = False
+        for st_ in rg.body:
+            if isinstance(st_, ast.Assign) and len(st_.targets) == 1 and isinstance(st_.targets[0], ast.Subscript) and _is_reg(st_.targets[0].value) and dotted(st_.targets[0].slice) == "name" \
+                    and isinstance(st_.value, ast.BinOp) and isinstance(st_.value.op, ast.Add):
+                parts = [st_.value.left, st_.value.right]
+                gets = [x for x in parts if isinstance(x, ast.Call) and call_attr(x) == "get" and _is_reg(x.func.value) and len(x.args) == 2 and dotted(x.args[0]) == "name" and const_value(x.args[1]) == 0]
+                ones = [x for x in parts if const_value(x) == 1 and not isinstance(const_value(x), bool)]
+                oneline = len(gets) == 1 and len(ones) == 1
+        ctx.check(oneline or (ok and touch(first) == ["registry[rtype][name] = 1"] and touch(second) == ["registry[rtype][name] += 1"]), rg,
                   "REGISTER: first registration sets the count to 1, later ones add 1", "REGISTER does not set 1 / increment by 1")
         ctx.check(not _cleanup_calls(rg.body), rg, "REGISTER never cleans")
     ur = br.get("UNREGISTER")
